@@ -8,6 +8,10 @@ tells), which is the domain the property states.
 """
 
 
+class TooLarge(Exception):
+    """the relation restricted to this input has more configurations than the reference is willing to walk"""
+
+
 class Fst:
     def __init__(self, states, trans, starts, finals):
         self.trans = sorted({(p, a, q, tuple(o)) for p, a, q, o in trans},
@@ -52,7 +56,7 @@ class Fst:
                 continue
             seen.add(c)
             if len(seen) > limit:
-                raise RuntimeError("R-FST: configuration limit (writing epsilon cycle?)")
+                raise TooLarge()
             q, i, out = c
             if i == len(word) and q in self.finals:
                 res.add(out)
